@@ -1,4 +1,5 @@
 //verif:package github.com/kstenerud/go-concise-encoding/internal/verifh/c16
+//verif:config cap=300
 //verif:bounds histories of two or three documents on one instance; the earlier documents are templates (valid, aborted at any event index, invalid); the last is a template with symbolic payload; MaxDocumentSizeBytes / MaxObjectCount / MaxContainerDepth symbolic
 //verif:assume marshaler/unmarshaler sessions and their sync.Map type caches are outside reach (reflection); "same error" = same nil-ness
 package c16
@@ -7,6 +8,7 @@ import (
 	"github.com/kstenerud/go-concise-encoding/cbe"
 	"github.com/kstenerud/go-concise-encoding/ce/events"
 	"github.com/kstenerud/go-concise-encoding/configuration"
+	"github.com/kstenerud/go-concise-encoding/cte"
 	"github.com/kstenerud/go-concise-encoding/internal/verifh"
 	"github.com/kstenerud/go-concise-encoding/internal/verifrt"
 	"github.com/kstenerud/go-concise-encoding/rules"
@@ -207,4 +209,30 @@ func Verif_C16_CBEDecoderReuse() {
 	if errFresh == nil {
 		verifrt.Assert(sameEvents(recUsed, recFresh), "reused CBE decoder emits the same events as a fresh one")
 	}
+}
+
+func encodeCTE(enc *cte.EncoderEventReceiver, f func(r events.DataEventReceiver)) []byte {
+	sink := &verifh.Sink{}
+	enc.PrepareToEncode(sink)
+	verifh.Try(func() { f(enc) })
+	return sink.Buf
+}
+
+// The CTE encoder keeps layout state (indentation, column, array engine); a
+// reused encoder must write the same text as a fresh one.
+func Verif_C16_CTEEncoderReuse() {
+	ka := verifrt.Choice("docA", numDocA)
+	na := verifrt.Choice("eventsOfA", 10)
+	kb := verifrt.Choice("docB", numDocB)
+	verifrt.Assume(kb != 2)
+	v := uint64(verifrt.U8("v"))
+	cfg := configuration.New()
+	used := cte.NewEncoder(cfg)
+	encodeCTE(used, func(r events.DataEventReceiver) { playA(r, ka, na) })
+	outUsed := encodeCTE(used, func(r events.DataEventReceiver) { docB(r, kb, v) })
+	outFresh := encodeCTE(cte.NewEncoder(cfg), func(r events.DataEventReceiver) { docB(r, kb, v) })
+	verifrt.Reach("compared")
+	verifrt.Known("KF-C16-cte-encoder-state", len(outUsed) != len(outFresh))
+	verifrt.Assert(len(outUsed) == len(outFresh), "reused CTE encoder writes as much text as a fresh one")
+	verifrt.Assert(verifrt.BytesEq(outUsed, outFresh), "reused CTE encoder writes the same text as a fresh one")
 }
